@@ -15,7 +15,7 @@ CHECKS = {
    "DESIGN.md §5 C19"),
  "C20": (True,
    "black-box monitoring of the real abasic-lsp child process over JSON-RPC: liveness, UTF-16 bounds oracle, equality with the in-process analyzer",
-   "Scripted sessions (initialize, didOpen/didChange/didClose over several URIs, semanticTokens/full, bursts of notifications followed by a barrier request, shutdown, exit) are run against the real server binary; every notification is followed by a request that acts as a barrier and must have been answered by a publishDiagnostics once the barrier is answered (in a burst: all of them, in order); document versions restart at every didOpen; the client offers one of seven position-encoding lists and positions are checked in the unit the server announces; the child must be alive; every range and decoded semantic token must lie inside the document measured in UTF-16 units, tokens ordered, non-overlapping and typed within the advertised legend; diagnostics and tokens must equal the in-process analyzer's results converted by an independent byte->UTF-16 model.",
+   "Scripted sessions (initialize, didOpen/didChange/didClose over several URIs, semanticTokens/full, bursts of notifications followed by a barrier request, shutdown, exit) are run against the real server binary; every notification is followed by a request that acts as a barrier and must have been answered by a publishDiagnostics once the barrier is answered (in a burst: all of them, in order); document versions restart at every didOpen; the client offers one of seven position-encoding lists and positions are checked in the unit the server announces; URIs that differ only outside the path are different documents, and the tokens of an open document other than the one analysed last are requested as well; the child must be alive; every range and decoded semantic token must lie inside the document measured in UTF-16 units, tokens ordered, non-overlapping and typed within the advertised legend; diagnostics and tokens must equal the in-process analyzer's results converted by an independent byte->UTF-16 model.",
    "Debug build of the server on stdio; missing responses while the child is alive are inconclusive; no lone CR in documents.",
    "DESIGN.md §5 C20"),
  "C05": (True,
@@ -25,7 +25,7 @@ CHECKS = {
    "DESIGN.md §5 C05"),
  "C06": (True,
    "differential monitoring of two implementations: analyzer verdict vs observed execution outcome, over generated lines and over programs run along all forced branches",
-   "For straight-line generated lines (45% with typing/syntax mistakes) the analyzer's verdict is compared with an actual run from a fresh state in both directions the property states; files of up to 94 failing lines followed by a valid one must not get the valid line rejected (and must hand a zero nesting counter to the interpreter); lines behind STOP are executed by CONT; for generated programs (half of them with their lines shuffled in the file) whose IF conditions test INPUT-controlled variables, analysis-clean programs are executed under all 2^k reply vectors and must never end in SYNTAX / TYPE MISMATCH / UNDEF'D STATEMENT.",
+   "For straight-line generated lines (45% with typing/syntax mistakes) the analyzer's verdict is compared with an actual run from a fresh state in both directions the property states; files of up to 94 failing lines followed by a valid one must not get the valid line rejected (and must hand a zero nesting counter to the interpreter); lines behind STOP are executed by CONT; tiny programs with jump targets written with a fraction and with line numbers defined twice are judged in the first direction; for generated programs (half of them with their lines shuffled in the file) whose IF conditions test INPUT-controlled variables, analysis-clean programs are executed under all 2^k reply vectors and must never end in SYNTAX / TYPE MISMATCH / UNDEF'D STATEMENT.",
    "Only the stated implications are checked (never which error or where); known finding C06-KF1 (= C03-KF1) recognised by signature.",
    "DESIGN.md §5 C06"),
  "C14": (True,
@@ -65,7 +65,7 @@ CHECKS = {
    "DESIGN.md §5 C10"),
  "C11": (True,
    "invariant at a hook (snapshot after the edit) + probe statements on replayed histories",
-   "Generated programs are driven to every kind of suspension point, one edit is applied (targeted at the lines that hold the breakpoint, FOR, GOSUB return point, DEF, current DATA), the snapshot must hold no runtime reference while variables/arrays are unchanged, and CONT / RETURN / NEXT v / FN call / READ / GOTO are probed, each on its own replay; a rejected edit must leave state and continuation identical to a twin session.",
+   "Generated programs are driven to every kind of suspension point, one edit is applied (targeted at the lines that hold the breakpoint, FOR, GOSUB return point, DEF, current DATA), the snapshot must hold no runtime reference while variables/arrays are unchanged, and CONT / RETURN / NEXT v / FN call / READ / GOTO are probed, each on its own replay; an edit the interpreter refuses (an untokenizable line, or any other refusal, also on programs padded to about 32 750 tokens) must leave listing, state and continuation identical to a twin session; GOTO after an edit behaves as on a fresh interpreter rebuilt from the edited lines, the same variables, arrays and generator state.",
    "Left-over frames without a pending breakpoint are not treated as live references (unobservable: every host line clears them first).",
    "DESIGN.md §5 C11"),
  "C03": (True,
@@ -80,7 +80,7 @@ CHECKS = {
    "DESIGN.md §5 C08"),
  "C09": (True,
    "per-call monitors: trace/print records and hook counters of token-cursor reads per host call vs M-prog's turn sequence and a work bound",
-   "Every host call of generated programs is observed with tracing on: the per-call sequence must equal M-prog's one-statement-per-turn sequence; for token-soup programs per-call structural bounds hold; token-cursor reads per call are bounded by 30 x (line length + 1) for programs without user functions; non-terminating programs are driven 10000 turns with a break/CONT at a random turn; the same programs run through the Web adapter must need as many start/continue calls as the core; single statements over huge and special operand values must return within the token-read budget and the CPU-time budget of the calling thread.",
+   "Every host call of generated programs is observed with tracing on: the per-call sequence must equal M-prog's one-statement-per-turn sequence; for token-soup programs per-call structural bounds hold; token-cursor reads per call are bounded by 30 x (line length + 1) for programs without user functions; non-terminating programs are driven 10000 turns with a break/CONT at a random turn; the same programs run through the Web adapter must need as many start/continue calls as the core; single statements over huge and special operand values must return within the token-read budget and the CPU-time budget of the calling thread; a multi-statement line typed at a breakpoint takes the same calls as without one; RUN + break + CONT after a suspension that was abandoned earlier in the session gives the same records call by call as on a fresh interpreter.",
    "Work = reads of the token cursor (hook counter) and, for work that reads no tokens, CPU time of the calling thread against a budget 30x above the longest legitimate call; wall time never decides. Known finding C09-KF1 (DATA index rebuild is O(program)) recognised by its own counter.",
    "DESIGN.md §5 C09"),
  "C17": (True,
